@@ -96,7 +96,8 @@ STATEMENTS = [
     (['def f(a):', '    return a', ''], None), (['for i in range(2):', '    print(i)'], ['0', '1']),
     (["s = '''", 'inner text', "'''"], None), (['# a comment'], None), (['x = 1  # xdoctest: +SKIP'], None),
     (['print(1); print(2)'], ['1', '2']), (['@dec', 'def g():', '    pass'], None), (['f(', '  3)'], ['3']),
-    (['z = (1 +', '     2)'], None),
+    (['z = (1 +', '     2)'], None), (['@dec', 'async def h():', '    pass'], None), (['@dec', '@dec', 'class C:', '    pass'], None),
+    (['async def k():', '    return 1'], None),
 ]
 
 
@@ -209,7 +210,15 @@ def _worker(docs):
     for d, r in zip(docs, res):
         i = parsemodel.impl_parse(d)
         m = parsemodel.canon_model(r)
-        out.append((common.sx_enc(i) == common.sx_enc(m), i, m, check_partition(d, i)))
+        part = check_partition(d, i)
+        if part is None and i[0] == Sym('parsed'):
+            # the parser's other mode (every statement a part of its own, as an interactive session would run them) must
+            # partition the docstring just the same (no model of that mode: the predicate alone)
+            ir = parsemodel.impl_parse(d, simulate_repl=True)
+            pr = check_partition(d, ir) if ir[0] == Sym('parsed') else 'simulate_repl=True: %s' % common.sx_enc(ir)[:120]
+            if pr is not None:
+                part = 'with simulate_repl=True: ' + pr
+        out.append((common.sx_enc(i) == common.sx_enc(m), i, m, part))
     return out
 
 
